@@ -161,7 +161,9 @@ theorem step_sound (hrec : RecClean rec) (env : Env) (len pc : Nat) (i : Instr) 
           · simp [StepGood, Abort.structural]
           · split
             · simp [StepGood]; omega
-            · simp [StepGood, pushV]; omega
+            · split
+              · simp [StepGood, pushV]; omega
+              · simp [StepGood, pushV]; omega
     · rename_i v s1 hnot h1
       have l1 := popRaw_ok h1
       split
